@@ -21,6 +21,7 @@
 """Generation of rpc types."""
 
 from beartype.typing import Tuple, Dict
+from copy import deepcopy
 
 from fcp.utils import to_pascal_case
 from fcp.specs.v2 import FcpV2
@@ -168,6 +169,8 @@ def _generate_enums(fcp: FcpV2, service_methods_enum: Tuple[str, int]) -> FcpV2:
 
 def generate_rpc(fcp: FcpV2) -> FcpV2:
     """Generate rpc types."""
+    # work on a copy, the caller's tree must not grow the synthesized rpc types
+    fcp = deepcopy(fcp)
     method_data: Dict[str, Tuple[Struct, Impl]] = {}
     service_methods_enum: Dict[str, Tuple[str, int]] = {}
 
